@@ -21,7 +21,7 @@ THEOREMS = ["Rspirv.Props.C06.methods_ok", "Rspirv.Props.C06.wrappers_ok", "Rspi
                                                    "C06_roundtrip_typed", "many_loopT", "groups_loopT", "call_typed",
                                                    "collect_flatten")] + \
            ["Rspirv.Props.C06Emit." + n for n in ("adds_push", "updBlock_adds", "insertIntoBlock_adds", "step_mem", "run_all",
-                                                  "C06_typed_history")] + \
+                                                  "C06_typed_history", "assemble_wordsOk", "C06_typed_history'")] + \
            ["Rspirv.Props.C02Typed.typed_spec", "Rspirv.Props.C02TypedInst.typedStream_grammar"]
 NEEDS = ("header", "core", "decode", "operand_enum", "asm_arms", "parse_operand", "operands", "builder", "traversals")
 
